@@ -1,0 +1,41 @@
+//go:build verif
+
+// Verification hook (add-only, compiled only with -tags verif) for the C40
+// correspondence harness under /verif: builds an InternalDataplane around the
+// REAL rule renderer and caller-supplied (recording) filter tables and calls the
+// REAL, unexported setUpIptablesBPF(), so that the BPF-mode static rules that
+// int_dataplane.go programs into filter INPUT / FORWARD / OUTPUT can be rendered
+// and evaluated.  Nothing here changes behaviour.
+
+package intdataplane
+
+import (
+	"github.com/projectcalico/calico/felix/generictables"
+	"github.com/projectcalico/calico/felix/iptables"
+	"github.com/projectcalico/calico/felix/nftables"
+	"github.com/projectcalico/calico/felix/rules"
+)
+
+// VerifC40SetUpIptablesBPF runs the real setUpIptablesBPF() over the given filter tables (no raw,
+// nat, mangle or arp tables are attached) and returns the real renderer it used.
+func VerifC40SetUpIptablesBPF(rc rules.Config, nft bool, bpfIPv6 bool, filterTables []generictables.Table) rules.RuleRenderer {
+	renderer := rules.NewRenderer(rc, nft)
+	d := &InternalDataplane{
+		config: Config{
+			RulesConfig:    rc,
+			BPFEnabled:     true,
+			BPFIpv6Enabled: bpfIPv6,
+		},
+		ruleRenderer:    renderer,
+		newMatch:        iptables.Match,
+		actions:         iptables.Actions(),
+		nftablesEnabled: nft,
+		filterTables:    filterTables,
+	}
+	if nft {
+		d.newMatch = nftables.Match
+		d.actions = nftables.Actions()
+	}
+	d.setUpIptablesBPF()
+	return renderer
+}
